@@ -36,9 +36,18 @@ def run(data):
             p, q = Prefix._by_name[c["p"]], Prefix._by_name[c["q"]]
             u = mk_unit(c["u"]); m = mk_num(c["m"]); n = c["n"]
             same_base = (p.base == q.base) and not isinstance(u.prefix.exponent, float) and (u.prefix.base in (0, p.base))
+            if data.get("render_first"):
+                # the prefixed unit first appears inside a larger unit that is rendered in every style (as a ratio, too), and only then
+                # on its own: rendering may not decide what the prefixed unit is
+                big = p * (u / mk_unit([[None, "second", 1]]))
+                for f_ in (lambda: str(big), lambda: format(big, "/"), lambda: repr(big), lambda: big._repr_html_(), lambda: format(3 * big, "/"), lambda: big.as_ratio()):
+                    try: f_()
+                    except Exception: pass  # noqa
             pv = p.quantify()
             def chk(name, ok):
                 if not ok: rec["fails"].append(name)
+            # a prefix scales a unit and nothing else: same dimension, same base-unit factors
+            chk("prefix-keeps-dimension", (p * u).dimension is u.dimension and dict((p * u).factors) == dict(u.factors))
             mm = m if not isinstance(m, Decimal) else m
             pvm = Decimal(pv) if isinstance(m, Decimal) else pv
             # m*(p*u) equals (m*value(p))*u
